@@ -89,6 +89,11 @@ From MX Require Import Model.SeqIds Model.Doc Model.DocTables.
 Theorem C09_document_structure : forall d, schema_valid d -> exists e, parse elem_tpl d = Some e /\ emit e = Some d.
 Proof. intros d V. apply doc_roundtrip. apply (schema_valid_valid (fun r I => forallb_In _ _ _ cm_rows_ok9 I)). exact V. Qed.
 Print Assumptions C09_document_structure.
+(* and for ANY document, valid or not, over ANY assignment of templates to tags: if the parser returns and the result serialises, then at every
+   node the emitted children are the children that were read, up to order (each related recursively): nothing is dropped, invented or moved *)
+Theorem C09_document_no_silent_loss : forall tpl d e d', parse tpl d = Some e -> emit e = Some d' -> same_content d d'.
+Proof. exact parse_loses_nothing. Qed.
+Print Assumptions C09_document_no_silent_loss.
 Example C09_document_example :
   let d := XNode s_defaults [XNode s_scaling [XNode s_millimeters []; XNode s_tenths []];
                              XNode s_page_layout [XNode s_page_height []; XNode s_page_width []; XNode s_page_margins [XNode s_left_margin []; XNode s_right_margin []; XNode s_top_margin []; XNode s_bottom_margin []]]] in
